@@ -31,7 +31,28 @@ if ROOT not in sys.path:
 from bounded import c21_validators as V  # noqa: E402
 
 MODULE = "checks.bounded_C21"
+LEVEL = "exploration"
 NPROC = 16
+
+
+class _SeededPool:
+    """multiprocessing pool whose workers are *spawned* (fresh interpreters, one per job) with a
+    fixed PYTHONHASHSEED, so that set/dict iteration orders inside ISLa do not vary between runs."""
+
+    def __init__(self, nproc: int, hashseed: int):
+        self._old = os.environ.get("PYTHONHASHSEED")
+        os.environ["PYTHONHASHSEED"] = str(hashseed % 4294967295)
+        self.pool = mp.get_context("spawn").Pool(nproc, maxtasksperchild=1)
+
+    def close(self):
+        try:
+            self.pool.terminate()
+            self.pool.join()
+        finally:
+            if self._old is None:
+                os.environ.pop("PYTHONHASHSEED", None)
+            else:
+                os.environ["PYTHONHASHSEED"] = self._old
 
 # ---------------------------------------------------------------------------
 # shipped configurations
@@ -39,12 +60,16 @@ NPROC = 16
 # name -> (source of the settings, cost vector, k, extra kwargs of the cost computer)
 COSTS: Dict[str, Dict[str, Optional[Tuple[Tuple[float, ...], int, Dict[str, Any]]]]] = {
     "csv": {"std": None,
-            "shipped": ((1, 0, 1, 0, 0), 3, {})},                       # evaluations/evaluate_csv.py
+            "shipped": ((1, 0, 1, 0, 0), 3, {}),                        # evaluations/evaluate_csv.py
+            "tests": None},                     # test_solver.py::test_csv_rows_equal_length_simpler
     "xml": {"std": None,
-            "shipped": ((10, 0, 6, 0, 13), 4, {})},                     # evaluations/evaluate_xml.py
+            "shipped": ((10, 0, 6, 0, 13), 4, {}),                      # evaluations/evaluate_xml.py
+            "tests": ((9.5, 0, 6, 0, 13), 4, {})},                      # test_solver.py::test_xml_with_prefixes
     "rest": {"std": None,
              "shipped": ((7, 1.5, 2.5, 2, 18), 4,
-                         {"reset_coverage_after_n_round_with_no_coverage": 1500})},  # evaluate_rest.py
+                         {"reset_coverage_after_n_round_with_no_coverage": 1500}),  # evaluate_rest.py
+             "tests": ((7, 1.5, 2.5, 2, 18), 4,
+                       {"reset_coverage_after_n_round_with_no_coverage": 500})},    # test_solver.py::test_rest
     "tar": {"std": None,                                                # tests/test_solver.py::test_simple_tar
             "shipped": ((3, 0, 2, 0, 0), 4, {})},                       # evaluations/evaluate_tar.py
 }
@@ -56,21 +81,30 @@ XML_RULES = {
     "redef": {"duplicate-attribute"},
 }
 
-# per (tier): formalization -> (variants, seeds per cost setting, solution cap per job, wall budget s)
+# per tier: formalization -> {config: (variants, number of solver instances, solution cap per
+# instance, wall budget s)}; config = cost setting + solver settings: std / shipped / tests (see COSTS)
 PLAN = {
     "quick": {
-        "csv": (["colno"], 2, 150, 100),
-        "xml": (["wf+ns+redef"], 2, 220, 100),
-        "rest": (["all"], 2, 250, 100),
-        "tar": (["all"], 2, 40, 100),
+        "csv": {"std": (["colno"], 2, 150, 110), "shipped": (["colno"], 2, 150, 110),
+                "tests": (["colno"], 1, 60, 110)},
+        "tar": {"std": (["all"], 2, 20, 110), "shipped": (["all"], 2, 20, 110)},
+        "xml": {"std": (["wf+ns+redef"], 2, 150, 110), "shipped": (["wf+ns+redef"], 2, 150, 110),
+                "tests": (["wf+ns+redef"], 1, 60, 110)},
+        "rest": {"std": (["all"], 2, 150, 110), "shipped": (["all"], 2, 150, 110),
+                 "tests": (["all"], 1, 60, 110)},
     },
     "thorough": {
-        "csv": (["colno"], 6, 400, 270),
-        "xml": (["wf+ns+redef", "wf+ns+redef", "wf", "ns", "redef"], 4, 500, 270),
-        "rest": (["all"], 8, 600, 270),
-        "tar": (["all"], 8, 150, 270),
+        "csv": {"std": (["colno"], 4, 400, 270), "shipped": (["colno"], 4, 400, 270),
+                "tests": (["colno"], 4, 150, 270)},
+        "tar": {"std": (["all"], 8, 120, 270), "shipped": (["all"], 8, 120, 270)},
+        "xml": {"std": (["wf+ns+redef", "wf+ns+redef", "wf+ns+redef", "wf", "ns", "redef"], 6, 500, 270),
+                "shipped": (["wf+ns+redef", "wf+ns+redef", "wf+ns+redef", "wf", "ns", "redef"], 6, 500, 270),
+                "tests": (["wf+ns+redef"], 4, 150, 270)},
+        "rest": {"std": (["all"], 6, 600, 270), "shipped": (["all"], 6, 600, 270),
+                 "tests": (["all"], 4, 150, 270)},
     },
 }
+FAMILY_ORDER = ("csv", "tar", "xml", "rest")      # short CSV jobs first, they free their slots at once
 # minimum number of solutions per (formalization, cost setting) the tier is supposed to reach
 MIN_SOLUTIONS = {"quick": 15, "thorough": 50}
 
@@ -92,8 +126,8 @@ SPEC = {
 # worker side (imports ISLa lazily; returns plain JSON-able data)
 # ---------------------------------------------------------------------------
 
-class _Watchdog(Exception):
-    pass
+class _Watchdog(BaseException):
+    """BaseException: `except Exception` blocks inside ISLa / returns / docutils must not swallow it"""
 
 
 def _alarm(signum, frame):
@@ -246,6 +280,13 @@ def _build(formalization: str, variant: str, cost: str, timeout: int):
                   enforce_unique_trees_in_queue=False)
     else:
         raise ValueError(formalization)
+    if cost == "tests":
+        # the configuration of the shipped test-suite (tests/test_solver.py)
+        kw.update({"csv": dict(max_number_free_instantiations=1, max_number_smt_instantiations=2),
+                   "xml": dict(max_number_free_instantiations=1, max_number_smt_instantiations=1,
+                               enforce_unique_trees_in_queue=True),
+                   "rest": dict(max_number_free_instantiations=1, max_number_smt_instantiations=1,
+                                enforce_unique_trees_in_queue=True)}[formalization])
     cs = COSTS[formalization][cost]
     if cs is not None:
         vec, k, extra = cs
@@ -285,9 +326,10 @@ def judge(formalization: str, variant: str, s: str, facts: Optional[Dict[str, An
         info["stats"] = V.xml_stats(s)
     elif formalization == "rest":
         br = V.validate_rest_rules(s, facts)
-        have = {c for c, _ in br}
         try:
             msgs, kinds = V.rest_docutils_messages(s)
+        except _Watchdog:
+            raise
         except Exception as e:  # docutils crashed: SEVERE
             msgs, kinds = [(4, "docutils-crash-" + type(e).__name__.lower(), str(e)[:120])], {}
         outside: Dict[str, int] = {}
@@ -302,6 +344,12 @@ def judge(formalization: str, variant: str, s: str, facts: Optional[Dict[str, An
                     outside["warning:" + cls] = outside.get("warning:" + cls, 0) + 1
             else:
                 outside["info:" + cls] = outside.get("info:" + cls, 0) + 1
+        n_titles = len((facts or {}).get("titles", []))
+        if kinds and kinds.get("title", 0) + kinds.get("subtitle", 0) != n_titles:
+            # e.g. ';\n=\n': docutils reads a punctuation-only title line as an overline and
+            # renders a paragraph (INFO only).  rest.render_rst calls this an error; the shipped
+            # constraints do not speak about it -> counted, not a violation.
+            outside["titles_not_rendered_as_heading"] = 1
         info["docutils_other"] = outside
         info["stats"] = {"titles": len((facts or {}).get("titles", [])),
                          "enum_items_max": max([len(e) for e in (facts or {}).get("enumerations", [])]
@@ -309,7 +357,6 @@ def judge(formalization: str, variant: str, s: str, facts: Optional[Dict[str, An
                          "refs": len((facts or {}).get("refs", [])),
                          "labels": len((facts or {}).get("labels", [])),
                          "rendered": kinds}
-        del have
     elif formalization == "tar":
         br = V.validate_tar(s)
         info["stats"] = V.tar_stats(s)
@@ -319,6 +366,19 @@ def judge(formalization: str, variant: str, s: str, facts: Optional[Dict[str, An
 
 
 def worker(job: Dict[str, Any]) -> Dict[str, Any]:
+    """Pool entry point: never lets a BaseException escape (it would kill the pool worker and
+    the parent would wait for the result until its deadline)."""
+    try:
+        return _worker(job)
+    except BaseException as e:  # watchdog striking between the handlers of _worker
+        signal.setitimer(signal.ITIMER_REAL, 0)
+        return dict(idx=job["idx"], formalization=job["formalization"], variant=job["variant"],
+                    cost=job["cost"], seed=job["seed"], solutions=[],
+                    end="watchdog" if isinstance(e, _Watchdog) else "error",
+                    error=f"{type(e).__name__}: {e}"[:300], elapsed=None)
+
+
+def _worker(job: Dict[str, Any]) -> Dict[str, Any]:
     """One solver instance; returns up to job['cap'] judged solutions."""
     import random
     import warnings
@@ -331,7 +391,9 @@ def worker(job: Dict[str, Any]) -> Dict[str, Any]:
                                solutions=[], end="cap", error=None)
     budget = int(job["budget"])
     old = signal.signal(signal.SIGALRM, _alarm)
-    signal.alarm(budget + 5)
+    # repeating timer: an exception raised inside a __del__ (z3) is swallowed by the
+    # interpreter, so the watchdog must be able to strike again
+    signal.setitimer(signal.ITIMER_REAL, budget + 5, 2.0)
     try:
         random.seed(job["seed"])
         grammar, solver = _build(job["formalization"], job["variant"], job["cost"], budget)
@@ -366,13 +428,14 @@ def worker(job: Dict[str, Any]) -> Dict[str, Any]:
             res["solutions"].append(rec)
     except _Watchdog:
         res["end"] = "watchdog"
-    except Exception as e:  # solver crashed
+    except BaseException as e:  # solver crashed (SystemExit included: keep the pool worker alive)
         import traceback
+        signal.setitimer(signal.ITIMER_REAL, 0)
         res["end"] = "error"
         res["error"] = f"{type(e).__name__}: {e}"[:300]
         res["trace"] = traceback.format_exc()[-1500:]
     finally:
-        signal.alarm(0)
+        signal.setitimer(signal.ITIMER_REAL, 0)
         signal.signal(signal.SIGALRM, old)
     res["elapsed"] = round(time.time() - t0, 2)
     return res
@@ -386,11 +449,9 @@ def _jobs(tier: str, seed: int) -> List[Dict[str, Any]]:
     jobs: List[Dict[str, Any]] = []
     plan = PLAN[tier]
     k = 0
-    # interleave so that the slow families start first
-    for f in ("tar", "xml", "rest", "csv"):
-        variants, nseeds, cap, budget = plan[f]
-        for cost in ("std", "shipped"):
-            for i in range(nseeds):
+    for f in FAMILY_ORDER:
+        for cost, (variants, ninst, cap, budget) in plan[f].items():
+            for i in range(ninst):
                 variant = variants[i % len(variants)]
                 jobs.append(dict(idx=k, formalization=f, variant=variant, cost=cost,
                                  seed=seed + k, cap=cap, budget=budget))
@@ -430,11 +491,13 @@ def _texts(rep, tier: str) -> None:
              "non-trivial (checksum + field widths always apply). Plus hand-written sanity inputs "
              "(valid and invalid per rule) that the validators must judge as expected.")
     plan = PLAN[tier]
-    rep.bound("tier %s: %s; two cost settings each (std = solver default STD_COST_SETTINGS, shipped = "
-              "cost vector of evaluations/evaluate_*.py); sampled, not exhaustive" % (
-                  tier, "; ".join(f"{f}: {2 * plan[f][1]} solver instances x <= {plan[f][2]} "
-                                  f"solutions, wall budget {plan[f][3]} s per instance"
-                                  for f in ("csv", "xml", "rest", "tar"))))
+    rep.bound("tier %s: %s; configurations: std = solver default cost settings STD_COST_SETTINGS with "
+              "the solver settings of evaluations/evaluate_*.py (TAR: of test_simple_tar), shipped = "
+              "same settings with the cost vector/k of evaluations/evaluate_*.py, tests = settings and "
+              "cost vector of tests/test_solver.py; sampled, not exhaustive" % (
+                  tier, "; ".join(f"{f}/{c}: {v[1]} solver instance(s) x <= {v[2]} solutions "
+                                  f"(watchdog {v[3]} s)" for f in FAMILY_ORDER
+                                  for c, v in plan[f].items())))
     rep.assume("grammar, constraints and solver settings are imported at run time from "
                "/repo/src/isla_formalizations and mirror evaluations/evaluate_{csv,xml,rest}.py and "
                "tests/test_solver.py::test_simple_tar (max_number_free/smt_instantiations, "
@@ -450,7 +513,9 @@ def _texts(rep, tier: str) -> None:
                "classes that are the docutils face of a formalized rule (title underline too short, "
                "duplicate explicit target name); other WARNINGs (inline markup, indentation ...) and "
                "INFO messages concern markup the shipped constraints do not formalize and are counted "
-               "in section rest.docutils_other. Underline and numbering rules are anchored on the "
+               "in section rest.docutils_other, as are solutions whose <section-title> count differs "
+               "from the number of rendered headings (docutils reads a punctuation-only title such as "
+               "';' as an overline; INFO only, but rest.render_rst would call it an error). Underline and numbering rules are anchored on the "
                "<section-title>/<enumeration> nodes of the returned tree (own traversal), because the "
                "shipped grammar is ambiguous on strings (a paragraph may spell 'abc\\n--').")
     rep.assume("simple TAR is the 216-byte toy entry of simple_tar.py (file_name[100] checksum[8] "
@@ -460,7 +525,8 @@ def _texts(rep, tier: str) -> None:
     rep.assume("solver timeouts / exhausted queues give fewer solutions (inconclusive), never a "
                "violation; the number of solutions per job is capped by count, the wall budget is only "
                "a watchdog, so results do not depend on pool scheduling unless a watchdog fires. "
-               "Z3 and PYTHONHASHSEED are outside random.seed (see C22).")
+               "Workers are spawned with PYTHONHASHSEED=<seed> and random.seed(seed + job index); "
+               "Z3-internal nondeterminism (time-outs) is outside this control (see C22).")
 
 
 def _nontrivial(f: str, info: Dict[str, Any]) -> bool:
@@ -481,12 +547,12 @@ def run(rep, tier: str, seed: int) -> None:
     _sanity(rep)
     jobs = _jobs(tier, seed)
     results: Dict[int, Dict[str, Any]] = {}
-    ctx = mp.get_context("fork")
-    pool = ctx.Pool(NPROC, maxtasksperchild=1)
+    sp = _SeededPool(NPROC, seed)
+    pool = sp.pool
     try:
         asyncs = [(j, pool.apply_async(worker, (j,))) for j in jobs]
         rounds = (len(jobs) + NPROC - 1) // NPROC
-        deadline = time.time() + rounds * (max(j["budget"] for j in jobs) + 30)
+        deadline = time.time() + (rounds + 1) * (max(j["budget"] for j in jobs) + 30)
         for j, a in asyncs:
             try:
                 results[j["idx"]] = a.get(timeout=max(1.0, deadline - time.time()))
@@ -500,8 +566,7 @@ def run(rep, tier: str, seed: int) -> None:
                                          solutions=[], end="error", error=f"{type(e).__name__}: {e}",
                                          elapsed=None)
     finally:
-        pool.terminate()
-        pool.join()
+        sp.close()
 
     per: Dict[Tuple[str, str], int] = {}
     nsamples: Dict[str, int] = {}
@@ -530,8 +595,9 @@ def run(rep, tier: str, seed: int) -> None:
             sample = None
             if nt and nsamples.get(f, 0) < 3:
                 nsamples[f] = nsamples.get(f, 0) + 1
+                shown = re.sub("\x00{4,}", lambda m_: "<NUL*%d>" % len(m_.group(0)), s)
                 sample = dict(formalization=f, variant=variant, cost=cost, seed=r["seed"], n=n,
-                              solution=s if len(s) <= 160 else s[:160] + "...",
+                              solution=shown if len(shown) <= 200 else shown[:200] + "...",
                               verdict="valid" if not sol["breaches"] else sol["breaches"][0][0])
             rep.case(key=(f, variant, cost, h), nontrivial=nt, sample=sample)
             rep.section(sec, nontrivial=1 if nt else 0)
@@ -579,19 +645,19 @@ def run(rep, tier: str, seed: int) -> None:
                              "facts": sol.get("facts"), "tree": sol.get("tree"),
                              "job": {k: j[k] for k in ("formalization", "variant", "cost", "seed",
                                                        "cap", "budget")},
-                             "solution_index": n}})
+                             "solution_index": n, "hashseed": seed}})
 
-    for f in ("csv", "xml", "rest", "tar"):
-        for cost in ("std", "shipped"):
+    for f in FAMILY_ORDER:
+        for cost in PLAN[tier][f]:
             got = per.get((f, cost), 0)
             rep.section("solutions_per_cost_setting", **{f"{f}_{cost}": got})
             if got == 0:
                 rep.checker_error(f"family {f}/{cost} produced zero solutions (vacuous)")
-            elif got < MIN_SOLUTIONS[tier]:
+            elif got < MIN_SOLUTIONS[tier] and cost != "tests":
                 rep.note_inconclusive(f"family {f}/{cost}: only {got} solutions "
                                       f"(< {MIN_SOLUTIONS[tier]} intended for tier {tier})")
         sec = rep.sections.get(f, {})
-        if per.get((f, "std"), 0) + per.get((f, "shipped"), 0) > 0 and not sec.get("nontrivial"):
+        if sum(per.get((f, c), 0) for c in PLAN[tier][f]) > 0 and not sec.get("nontrivial"):
             rep.checker_error(f"family {f}: no non-trivial solution was generated (rules never exercised)")
 
 
@@ -654,13 +720,14 @@ def replay(path: str) -> int:
         j = dict(job)
         j["idx"] = 0
         j["cap"] = min(int(job["cap"]), int(case.get("solution_index", job["cap"])) + 25)
-        ctx = mp.get_context("fork")
-        with ctx.Pool(1) as p:
-            try:
-                r = p.apply_async(worker, (j,)).get(timeout=j["budget"] + 60)
-            except Exception as e:
-                print(f"  job did not finish: {type(e).__name__}")
-                return 0
+        sp = _SeededPool(1, int(case.get("hashseed", 0)))
+        try:
+            r = sp.pool.apply_async(worker, (j,)).get(timeout=j["budget"] + 60)
+        except Exception as e:
+            print(f"  job did not finish: {type(e).__name__}")
+            return 0
+        finally:
+            sp.close()
         hits = [(n, sol) for n, sol in enumerate(r["solutions"])
                 if any(b[0] == rule for b in sol["breaches"])]
         print(f"  job ended '{r['end']}' with {len(r['solutions'])} solutions; "
